@@ -417,10 +417,10 @@ pub fn run(ctx: &Ctx, rep: &mut Report) {
                         continue;
                     }
                     let s = rng.pick(&live_old).clone();
-                    (plan_honest(&ring, &m.domain, &s, &dh, &all_slots(&s)), true, Auth::AsRecorded, true)
+                    (plan_honest(&ring, &m.domain, &s, &dh, &all_slots(&s)), true, Auth::Only(vec![operator.clone()]), true)
                 }
                 "bypass-without-operator" => {
-                    let a = if rng.chance(1, 2) { Auth::Nobody } else { Auth::AllBy(stranger.clone()) };
+                    let a = match rng.below(3) { 0 => Auth::Nobody, 1 => Auth::AllBy(stranger.clone()), _ => Auth::AllBy(owner.clone()) };
                     (plan_honest(&ring, &m.domain, &newest, &dh, &all_slots(&newest)), true, a, false)
                 }
                 "unknown-set" => {
@@ -443,7 +443,7 @@ pub fn run(ctx: &Ctx, rep: &mut Report) {
                         continue;
                     }
                     let s = rng.pick(&expired).clone();
-                    (plan_honest(&ring, &m.domain, &s, &dh, &all_slots(&s)), true, Auth::AsRecorded, true)
+                    (plan_honest(&ring, &m.domain, &s, &dh, &all_slots(&s)), true, Auth::Only(vec![operator.clone()]), true)
                 }
                 _ => {
                     let sub = one_short_subset(&mut rng, &newest);
